@@ -193,13 +193,24 @@ def check(ctx):
     clamp_regions(ctx)
     set_value_sanitised(ctx)
     decode_assignment(ctx)
+    # memoisation on the decode path that assigns the values: keys must cover what the stored value depends on
+    from ..rules import persist, decode
+    fns, _ = decode.decode_slice(ctx)
+    n = persist.check_memo_functions(ctx, [f for f in fns if f.module.name.startswith('adsg_core.optimization.graph_processor') or f.module.name.startswith('adsg_core.optimization.hierarchy')])
+    ctx.note(f'A2p: {n} memoising stores on the value-assignment path (graph processor, hierarchy analyzers)')
     ctx.floor('A16', 40, 'regions of correct_value')
     ctx.floor('A6', 4, 'stores in set_des_var_value')
+    from ..rules import indexspace as _ix
+    _ix.check_position_map_keys(ctx, [f for f in ctx.prog.all_functions() if f.module.name.startswith(('adsg_core.optimization.graph_processor', 'adsg_core.optimization.hierarchy'))],
+                                required=[f'{GP}.all_des_var_idx_map'])
+    ctx.floor('A21i', 2, 'position maps keyed by objects (design variables, choice nodes)')
 
 
 from ..selftest import V  # noqa: E402
 
 VARIANTS = [
+    V('desvar-compared-by-value', 'optimization/dv_output_defs.py',
+      [("    def __str__(self):\n        if self.is_discrete:\n            return f'DV: ", "    def __hash__(self):\n        return hash(self.name)\n\n    def __eq__(self, other):\n        return isinstance(other, DesVar) and self.name == other.name\n\n    def __str__(self):\n        if self.is_discrete:\n            return f'DV: ")], key='A21i'),
     V('clamp-upper-off-by-one', 'graph/adsg_nodes.py',
       [("            elif value >= len(self.options):\n                value = len(self.options)-1", "            elif value > len(self.options):\n                value = len(self.options)-1")],
       key='discrete'),
